@@ -49,7 +49,9 @@ def gen(seed: int, tier: str) -> dict[str, Any]:
     for i in range(n_real):
         near_max = rng.random() < 0.25
         senders.append({"kind": "real", "ia": W.ia(4, 0, 10 + i), "start": MAXSEQ - rng.randint(0, 3) if near_max
-                        else rng.randrange(1, 2 ** 47)})
+                        else rng.randrange(1, 2 ** 47),
+                        # hand-offs (by ordinal) that fail although the frame went out: e.g. the tunnel lost its ACKs
+                        "fail_calls": sorted(rng.sample(range(12), rng.choice([0, 0, 1, 3])))})
     for i in range(n_ref):
         senders.append({"kind": "ref", "ia": W.ia(4, 1, 20 + i), "start": rng.choice([1, rng.randrange(1, 2 ** 47), MAXSEQ - 5])})
     ops = []
@@ -128,6 +130,14 @@ def run(plan: dict[str, Any]) -> dict[str, Any]:
                 wire_out[i].append(ps["seq"])
                 to_bus(bytes((W.L_DATA_IND,)) + raw[1:], {"kind": "genuine", "s": i})
             n.stub.on_send = on_send
+            fc = set(senders[i].get("fail_calls") or ())
+            if fc:
+                def pick(raw, j, fc=fc):
+                    if j in fc:
+                        R.extra_faults["handoff_fails_after_transmission"] += 1
+                        return {"lat": 0.002, "out": "comm_error_sent"}
+                    return None
+                n.stub.pick = pick
         t0 = loop.time()
 
         def do(op):
